@@ -80,32 +80,55 @@ func (w *VerifWorld) AddPool(addr string, isSlave bool) *Pool {
 	// goroutine started - it first acts after 5 s, long after a replay has ended); only the dial
 	// function is replaced
 	p := w.Eng.newPool(addr, isSlave)
-	p.Dial = func(a string, slave bool) (SConn, error) {
-		w.Dials++
-		if w.DialFail[a] {
-			return nil, verifErrDial
-		}
-		fd, peer := verifSocketpair()
-		status := Initialized
-		if len(w.Eng.opts.RedisPasswd) > 0 {
-			status = InitializeNone
-		}
-		c := newTCPConn(fd, w.El, VerifAddr("proxy:1"), VerifAddr(a), ConnServer, status, slave)
-		if err := w.El.poller.AddRead(c.pollAttachment); err != nil {
-			return nil, err
-		}
-		w.El.connections[fd] = c
-		vc := &VerifConn{C: c, Fd: fd, Peer: peer, Addr: a, Seq: len(w.Servers)}
-		w.Servers = append(w.Servers, vc)
-		w.ByAddr[a] = append(w.ByAddr[a], vc)
-		if err := w.El.open(c); err != nil {
-			return nil, err
-		}
-		return c, nil
-	}
+	p.Dial = w.dial
 	EngineGlobal.ProxyPool[addr] = p
 	EngineGlobal.ProxyAddrs = append(EngineGlobal.ProxyAddrs, addr)
 	return p
+}
+
+// dial is the Dial function of every pool of the world: a server conn over a socketpair, opened by the
+// real eventloop.open (so OnSOpened and the AUTH/READONLY handshake are the real code).
+func (w *VerifWorld) dial(a string, slave bool) (SConn, error) {
+	w.Dials++
+	if w.DialFail[a] {
+		return nil, verifErrDial
+	}
+	fd, peer := verifSocketpair()
+	status := Initialized
+	if len(w.Eng.opts.RedisPasswd) > 0 {
+		status = InitializeNone
+	}
+	c := newTCPConn(fd, w.El, VerifAddr("proxy:1"), VerifAddr(a), ConnServer, status, slave)
+	if err := w.El.poller.AddRead(c.pollAttachment); err != nil {
+		return nil, err
+	}
+	w.El.connections[fd] = c
+	vc := &VerifConn{C: c, Fd: fd, Peer: peer, Addr: a, Seq: len(w.Servers)}
+	w.Servers = append(w.Servers, vc)
+	w.ByAddr[a] = append(w.ByAddr[a], vc)
+	if err := w.El.open(c); err != nil {
+		return nil, err
+	}
+	return c, nil
+}
+
+// AdoptPools gives every pool the ticker has created for a newly discovered node (engine.newPool, whose
+// Dial opens a TCP connection) the world's socketpair dial function.
+func (w *VerifWorld) AdoptPools() {
+	for _, p := range EngineGlobal.ProxyPool {
+		p.Dial = w.dial
+	}
+}
+
+// UseFakeInfo installs a fresh topology store whose INFO probes are answered by a fake (every node is
+// loaded and, if a replica, linked to its master).
+func (w *VerifWorld) UseFakeInfo() {
+	EngineGlobal.ClusterNodes = ClusterNodes{redisWrapper: &verifRedis{link: "up"}}
+}
+
+// Topology hands a CLUSTER NODES text to the real updateClusterNodes, as the refresh loop does.
+func (w *VerifWorld) Topology(text string) error {
+	return EngineGlobal.ClusterNodes.updateClusterNodes(text)
 }
 
 // SetSlots makes [lo,hi] owned by a replica set with the given master and replicas.
@@ -373,4 +396,28 @@ func (w *VerifWorld) Retopo(masters []string, ranges [][2]int, replicas ...[]str
 	cn.setServer(nodes)
 	cn.setReplicaset(nodes)
 	cn.serverChanged = true
+}
+
+// verifAdopting wraps the production handler: before the handler's own OnTicker (which opens a
+// connection to send the topology probe) every pool the ticker has just created gets the world's
+// socketpair dial function. With Probes false the handler's OnTicker is skipped altogether.
+type verifAdopting struct {
+	EventHandler
+	w      *VerifWorld
+	Probes bool
+}
+
+func (h *verifAdopting) OnTicker() {
+	h.w.AdoptPools()
+	if h.Probes {
+		h.EventHandler.OnTicker()
+	}
+}
+
+// AdoptOnTicker makes the event loop call AdoptPools at the point where the real ticker hands over to
+// the handler's OnTicker.
+func (w *VerifWorld) AdoptOnTicker(probes bool) {
+	h := &verifAdopting{EventHandler: w.El.eventHandler, w: w, Probes: probes}
+	w.El.eventHandler = h
+	w.Eng.eventHandler = h
 }
